@@ -100,6 +100,31 @@ func loadProgram(repo string, verifDir string) (*program, error) {
 		data, _ := os.ReadFile(use)
 		p.cons.hashes[use] = fmt.Sprintf("%x", sha256.Sum256(data))[:16]
 	}
+	// "implements": a function inherits the clauses of the functype / iface contract it must satisfy
+	for key, fc := range p.cons.funcs {
+		if fc.implements == "" {
+			continue
+		}
+		base := p.cons.funcs[fc.pkg+"."+fc.implements]
+		if base == nil {
+			return nil, fmt.Errorf("contract %s implements unknown contract %s", key, fc.implements)
+		}
+		fc.requires = append(append([]*clause{}, base.requires...), fc.requires...)
+		fc.ensures = append(append([]*clause{}, base.ensures...), fc.ensures...)
+		if fc.assigns == nil {
+			fc.assigns = base.assigns
+		}
+		if fc.panics == "" {
+			fc.panics = base.panics
+		}
+		if fc.fdecr == nil {
+			fc.fdecr = base.fdecr
+			fc.decrGroup = base.decrGroup
+		}
+		if fc.props == nil {
+			fc.props = base.props
+		}
+	}
 	// every contract must name an existing function
 	for key := range p.cons.funcs {
 		if _, ok := p.funcs[key]; !ok && !strings.Contains(key, ".iface:") && !strings.Contains(key, ".functype:") {
